@@ -682,6 +682,28 @@ def c04_stubbed(prop):
                  what="%s_canonization on %s n=%d with operations::cmp replaced by the index-loop stand-in s_cmp (equivalence lemma k04_cmp_equiv): orbit lower bound, membership, certificate (see the unstubbed harness of the same name in the thorough tier)" % (grp, "LutN" if kind == "s" else "Lut", n))
         s["inst"] = "c04_%s!(%s c04_%s_stub_%s, %s, 36);" % (grp, STUB_CMP, grp, fam, fam)
         out.append(s)
+    # L1 walk lemmas (kernel level)
+    for (n, q) in ((2, True), (5, True), (6, True), (7, True), (8, False)):
+        t = T(n)
+        u = max(8 * t, n) + 3
+        tr = "quick" if q else "thorough"
+        out.append(spec("verif_k04", "c04.rs+k04.rs", "k04_walk_p", "k04_walk_p_%d" % n, [n, t], u,
+                        tier=tr, n=n, fam="kernel", level="kernel", mem=mem_for(n, 2), timeout=3000, role="walk_p",
+                        covers={"reached": "SATISFIED", "no candidate improves": "SATISFIED", "second candidate is the best": "SATISFIED" if n >= 3 else "UNSAT"},
+                        what="L1 walk lemma P n=%d: p_canonization_ind over an ARBITRARY swap sequence of length <= 2 on a symbolic table: final table, best = min(input, candidates), index of the first strict improvement; p_canonization_res decodes it into a permutation mapping the input to best (pointwise on a symbolic assignment), including 'no candidate improves'" % n))
+        out.append(spec("verif_k04", "c04.rs+k04.rs", "k04_walk_n", "k04_walk_n_%d" % n, [n, t], u,
+                        tier=tr, n=n, fam="kernel", level="kernel", mem=mem_for(n, 2), timeout=3000, role="walk_n",
+                        covers={"reached": "SATISFIED", "no candidate improves": "SATISFIED",
+                                "complemented candidate after the second flip is the best": "SATISFIED"},
+                        what="L1 walk lemma N n=%d: n_canonization_ind / n_canonization_res over an ARBITRARY flip sequence of length <= 2 (both output polarities after each flip)" % n))
+        for (sl, fl_, closed) in ((1, 1, False), (1, 2, False), (2, 2, True)):
+            out.append(spec("verif_k04", "c04.rs+k04.rs", "k04_walk_npn", "k04_walk_npn_%d_%dx%d%s" % (n, sl, fl_, "c" if closed else ""),
+                            [n, t, sl, fl_, "true" if closed else "false"], u,
+                            tier=tr if not (n >= 7 and closed) else "thorough", n=n, fam="kernel", level="kernel", mem=mem_for(n, 2), timeout=3600, role="walk_npn",
+                            optional=(n >= 8),
+                            covers={"reached": "SATISFIED", "no candidate improves": "SATISFIED",
+                                    "a late candidate is the best": "SATISFIED" if sl * fl_ >= 2 else "UNSAT"},
+                            what="L1 walk lemma NPN n=%d, %d swap(s) x %d flip(s)%s with symbolic contents on a symbolic table: final table, best = min(input, candidates), index, and npn_canonization_res decodes it into (perm, mask) mapping the input to best (pointwise)" % (n, sl, fl_, " (closed cycle [v,v])" if closed else "")))
     for t in (1, 2, 4):
         out.append(spec("verif_k04", "c04.rs+k04.rs", "k04_cmp_equiv", "k04_cmp_equiv_%d" % t, [t], 8 * t + 3,
                         tier="quick", n=None, fam="kernel", level="kernel",
@@ -700,6 +722,20 @@ def c04(tier, seed):
                         covers={"reached": "SATISFIED", "npn arm": "SATISFIED"},
                         what="LutN n=%d: canonizing a representative returns it unchanged and every function of the orbit (symbolic group element) gets the same representative, for P, N and NPN" % n))
     return out
+
+
+def c04_extra(scratch, tier, seed, log):
+    import l2_sequences
+    recs = l2_sequences.run_l2(scratch, tier, seed, log)
+    for r in recs:
+        if r.get("verdict") == "violation":
+            n = r.get("n", 4)
+            kind = 0 if " swaps " in r["harness"] else 1
+            count = {0: 1, 1: 4, 2: 16, 3: 256, 4: 3000, 5: 2000, 6: 300, 7: 20, 8: 3}.get(n, 3)
+            fn = "c04_confirm_%d_%d" % (n, kind)
+            r["confirm"] = {"module": "verif_c04", "source": "c04.rs", "fn": fn,
+                            "inst": "c04_confirm!(%s, %d, %d, %d, 0);" % (fn, n, kind, count)}
+    return recs
 
 
 def c05(tier, seed):
@@ -726,7 +762,7 @@ PROPS = {
 }
 
 # property -> function(scratch, tier, seed, log) -> list of extra (non-Kani) obligation records
-EXTRA = {"C17": c17_extra}
+EXTRA = {"C17": c17_extra, "C04": c04_extra, "C05": c04_extra}
 
 
 def harnesses(prop, tier, seed=0):
